@@ -264,6 +264,32 @@ def extra_histories():
                    "shape": "extra:make_parameter_dynamic"}
 
 
+SUR3 = {"args": ["x"], "outs": ["o3", "ef"], "es": [["+", A(0), K(1)], ["*", A(0), K(2)]], "st": [["ef", []]]}
+
+
+def empty_flux_histories():
+    """a surrogate flux with an EMPTY stoichiometry (`stoichiometries={"ef": {}}`): `get_surrogate_reaction_names` lists
+    it, but no `stoich[...] = …` can be written for it — `make_parameter_dynamic` naming it must be rejected before the
+    parameter is converted; the flux shows in the name getters, the stoichiometry tables and `get_args`"""
+    pre = [["add_surrogate", "n1", SUR3]]
+    for q in (None, QUERIES[0], QUERIES[2]):
+        for mpd in (["make_parameter_dynamic", "k", None, [["ef", "1"]]],
+                    ["make_parameter_dynamic", "p", "2", [["r1", "1"], ["ef", "-1"]]],
+                    ["make_parameter_dynamic", "k", None, [["sf", "1"], ["ef", "2"]]],
+                    ["update_surrogate", "n1", None, None, None, [["ef", [["y", {"c": "1"}]]]]],
+                    ["update_surrogate", "s", None, None, None, [["sf", []]]],
+                    ["remove_variable", "x", True]):
+            mid = pre + ([q] if q else []) + [mpd, ["q", "names", "surrxns"], ["q", "names", "survars"],
+                                               ["q", "stoich", ["1", "2", "3", "1"], "1"], ["q", "fluxes", None, "0"]]
+            yield {"ops": BASE + mid + BATTERY[-2:], "check_from": len(BASE), "stratum": "emptyflux",
+                   "shape": f"emptyflux:{mpd[0]}"}
+        # the flux gets wired first: now it IS a target
+        mid = pre + [["update_surrogate", "n1", None, None, None, [["ef", [["y", {"c": "1"}]]]]]] + ([q] if q else []) + [
+            ["make_parameter_dynamic", "k", None, [["ef", "3"]]], ["q", "stoich", ["1", "2", "3", "1"], "1"]]
+        yield {"ops": BASE + mid + BATTERY[-2:], "check_from": len(BASE), "stratum": "emptyflux",
+               "shape": "emptyflux:wired"}
+
+
 def copy_histories():
     """deep copy / pickle round trip of a model with and without a filled cache, then an edit of the copy and queries:
     the copy answers like a fresh model with ITS content, the original keeps its own, `==` ignores the cache"""
@@ -453,6 +479,8 @@ def random_history(rng, length):
         return {"c": str(rng.choice([-2, -1, 1, 2, "1/2"]))}
 
     def st():
+        if rng.random() < 0.12:
+            return []  # a flux that is listed but not wired to any variable yet (`stoichiometries={"v": {}}`)
         vs = sim.names("vars")
         cands = vs if vs and rng.random() < 0.95 else vs + ["nope"]
         cands = list(dict.fromkeys(cands))  # a dict has each key once
